@@ -246,7 +246,9 @@ var osUnsupported = map[string]bool{
 	"Chdir": true, "StartProcess": true, "Pipe": true, "Root": true,
 }
 
-var filepathFS = map[string]bool{"Walk": true, "WalkDir": true, "Glob": true, "EvalSymlinks": true}
+// path/filepath has a facade of its own since wave 10 (overlaysrc/veriffilepath): nothing of
+// it goes around the simulator any more
+var filepathFS = map[string]bool{}
 
 // scanBypass reports uses in file that reach the file system around the os facade.
 func scanBypass(file string) ([]string, error) {
@@ -370,6 +372,19 @@ func CLI(repo, verif, scratch string) (*Overlay, error) {
 				return nil, err
 			}
 			o.Replace[f] = dst
+			cur = dst
+		}
+		// fifth seam: the functions of path/filepath that reach the disk (EvalSymlinks)
+		src5, changed5, err := rewriteImport(cur, "path/filepath", "github.com/tdewolff/minify/v2/veriffilepath", "")
+		if err != nil {
+			return nil, err
+		}
+		if changed5 {
+			dst := filepath.Join(scratch, "cli5_"+filepath.Base(f))
+			if err := os.WriteFile(dst, src5, 0o644); err != nil {
+				return nil, err
+			}
+			o.Replace[f] = dst
 		}
 	}
 	if rewritten == 0 {
@@ -394,6 +409,9 @@ func CLI(repo, verif, scratch string) (*Overlay, error) {
 		return nil, err
 	}
 	if err := mapDir(o, filepath.Join(verif, "overlaysrc", "verifsync"), filepath.Join(repo, "verifsync")); err != nil {
+		return nil, err
+	}
+	if err := mapDir(o, filepath.Join(verif, "overlaysrc", "veriffilepath"), filepath.Join(repo, "veriffilepath")); err != nil {
 		return nil, err
 	}
 	return o, nil
